@@ -37,7 +37,7 @@ def config_strategy(batching="mixed"):
         if batch:
             n = draw(st.sampled_from([0, 1, 2, 5]))
             b = draw(st.sampled_from([0, 10, 200]))
-            t = draw(st.sampled_from([0, 0.5, 2]))
+            t = draw(st.sampled_from([0, 0.53, 2.17]))
             if not (n or b or t):
                 n = 2
         return {
@@ -108,11 +108,40 @@ class PRODEngine(Engine):
         self.nt = set()
         self.faults = 0
         self.metadata_faults = 0
+        self.model_uncertain = False
+        self.hard_faults = 0
         self.last_fault_evseq = 0
         self.checked_writes = 0
         self.rounds = []
-        self.round_of = {}
         w.on_write = self._on_write
+        orig_spr = self.client.send_produce_request
+
+        def send_produce_request(payloads=None, *a, **k):
+            rnd = {"no": len(self.rounds), "call_evseq": self.evseq, "call_time": w.now, "keys": [(p.topic, p.partition) for p in (payloads or [])],
+                   "tps": set(), "frames": [], "done": None, "objs": list(payloads or [])}
+            # a retry passes (a subset of) the very payload objects of the batch's first call: same batch
+            for prev in reversed(self.rounds):
+                if prev.get("chain") is not None and rnd["objs"] and all(any(o is q for q in prev["objs"]) for o in rnd["objs"]):
+                    rnd["chain"] = prev["chain"]
+                    break
+            else:
+                rnd["chain"] = rnd["no"]
+            self.rounds.append(rnd)
+            d = orig_spr(payloads, *a, **k)
+
+            def done(result, rnd=rnd):
+                rnd["done"] = (self.evseq, w.now)
+                # did this round leave payloads to retry?  (a failure, or any error-coded response)
+                try:
+                    rnd["failed"] = hasattr(result, "check") or any(getattr(r, "error", 0) != 0 for r in (result or []))
+                except Exception:  # noqa
+                    rnd["failed"] = True
+                return result
+
+            d.addBoth(done)
+            return d
+
+        self.client.send_produce_request = send_produce_request
 
     # ------------------------------------------------------------------ generator
     def _msgs_spec(self, draw):
@@ -144,6 +173,10 @@ class PRODEngine(Engine):
             return warm + [["leader", ti, p, b], send(), send(), ["run", 14], ["timer"], ["run", 20], send(), ["run", 20]]
         if kind == "sendduringretry":
             return warm + [["err", b, code, k, ti, -1], send(), ["run", 12], send(), send(), ["timer"], ["run", 12], ["timer"], ["run", 20]]
+        if kind == "cancelqueued":
+            return warm + [["hold", b], send(), send("tn"), send("tp"), ["cancel", 1], send(), ["cancel", 0], ["run", 6], ["release", 0], ["run", 20], send(), ["wait", 3], ["run", 12]]
+        if kind == "holdburst":
+            return warm + [["hold", b]] + [send(draw(st.sampled_from(["t", "tt", "tp", "tn"]))) for _ in range(draw(st.integers(2, 6)))] + [["run", 6], ["release", 0], ["run", 20], ["wait", 3], ["run", 12]]
         if kind == "stopinflight":
             return warm + [["hold", b], send(), send(), ["run", 6], send(), ["stop"], ["release", 0], ["run", 10]]
         return warm + [send(draw(st.sampled_from(["t", "tn", "te", "tp"]))) for _ in range(draw(st.integers(3, 7)))] + [["run", 30]]
@@ -215,7 +248,6 @@ class PRODEngine(Engine):
             return
         if self.stopped and req["api"] == "produce":
             self.note("C19.stop-transmits-nothing", "C19.produce-after-stop", "a produce request was written after Producer.stop()")
-            self.note("C01.stop-fails", "C01.produce-after-stop", "a produce request was written after Producer.stop()")
         if req["api"] != "produce":
             self.other_writes.append((self.evseq, self.world.now, req["api"]))
             return
@@ -230,7 +262,7 @@ class PRODEngine(Engine):
                         flat.append((r["key"], r["value"]))
                 payloads[(t["topic"], p["partition"])] = flat
         rec = {"evseq": self.evseq, "time": self.world.now, "conn": conn, "node": conn.userdata.get("node"), "req": req, "payloads": payloads, "frame": frame,
-               "corr": req["correlation_id"], "plist": dict((t, list(self.client.topic_partitions.get(t, []))) for t in set(k[0] for k in payloads))}
+               "corr": req["correlation_id"], "round": self.rounds[-1] if self.rounds else None, "plist": dict((t, list(self.client.topic_partitions.get(t, []))) for t in set(k[0] for k in payloads))}
         self.writes.append(rec)
 
     def _mkmsgs(self, no, spec):
@@ -270,6 +302,12 @@ class PRODEngine(Engine):
                 return
             s.watch = simnet.Watch(d, w, "send%d" % no)
             s.watch.silence()
+            if self.config["batch"] and self._in_flight():
+                q = self._queue()
+                if (self.config["every_n"] and sum(len(x.msgs) for x in q) >= self.config["every_n"]) or (self.config["every_b"] and sum(x.nbytes for x in q) >= self.config["every_b"]):
+                    self.nt.add("threshold-met-while-batch-in-flight")
+            if any(x.cancelled_at is not None and getattr(x, "cancel_before_dispatch", False) for x in self.sends):
+                self.nt.add("cancel-queued-then-more-sends")
             self._after_event()
         elif op == "cancel":
             pend = [s for s in self.sends if s.watch is not None and s.watch.state == "pending"]
@@ -278,7 +316,8 @@ class PRODEngine(Engine):
             s = pend[step[1] % len(pend)]
             self.evseq += 1
             s.cancelled_at = self.evseq
-            s.cancel_before_dispatch = not s.appearances and s.batch is None
+            # "before dispatch" is certain only when a dispatch would have been a synchronous write (warm)
+            s.cancel_before_dispatch = not s.appearances and s.batch is None and self._warm(s.topic)
             self.labels.add("cancel-queued" if s.cancel_before_dispatch else "cancel-after-dispatch")
             s.watch.d.cancel()
             self._after_event()
@@ -357,6 +396,10 @@ class PRODEngine(Engine):
 
     def _fault(self, label):
         self.faults += 1
+        if label != "fault:held-reply":
+            # the "never late" clauses of the batching model are evaluated only in histories whose only disturbance is
+            # held (slow) replies: with other faults the instant at which the producer can dispatch is not observable
+            self.hard_faults += 1
         self.last_fault_evseq = self.evseq
         self.labels.add(label)
 
@@ -413,10 +456,122 @@ class PRODEngine(Engine):
                 self.note("C19.stop-fails-outstanding", "C19.stop-left-send-pending", "send #%d still pending after Producer.stop() returned" % s.no)
                 self.note("C01.stop-fails", "C01.stop-left-send-pending", "send #%d still pending after Producer.stop() returned" % s.no)
             elif s.watch.state == "ok":
-                self.note("C19.stop-fails-outstanding", "C19.stop-send-succeeded", "send #%d outstanding at stop() fired with success %.80r" % (s.no, s.watch.value))
+                # the acknowledgement had already reached the client (the produce round was merely incomplete): reporting
+                # it is truthful - C01 judges whether it is justified; counted, not flagged (see DESIGN.md, C19)
+                self.labels.add("stop-reported-an-acknowledged-send")
             elif not s.watch.value.check(TCancelled, ACancelled):
-                self.note("C19.stop-fails-outstanding", "C19.stop-wrong-error/%s" % s.watch.value.type.__name__, "send #%d outstanding at stop() failed with %s, not a cancellation error" % (s.no, s.watch.value.type.__name__))
+                from afkak.common import BrokerResponseError
+
+                if s.appearances and s.watch.value.check(BrokerResponseError):
+                    # the broker's (error) answer had already reached the client: reporting it is truthful; counted only
+                    self.labels.add("stop-reported-a-broker-error")
+                    continue
+                state = "in-flight" if s.appearances else "before-transmission"
+                self.note("C19.stop-fails-outstanding", "C19.stop-wrong-error/%s" % state, "send #%d (%s) outstanding at stop() failed with %s, not a cancellation error" % (s.no, state, s.watch.value.type.__name__))
         self._after_event()
+
+    def _warm(self, topic):
+        """a dispatch for this topic would be written synchronously: version discovery done, topic metadata cached
+        without error, every partition leader's connection up"""
+        from afkak.common import TopicAndPartition
+
+        c = self.client
+        if not self.writes or topic not in c.topic_partitions or c.metadata_error_for_topic(topic) != 0:
+            return False
+        for p in c.topic_partitions[topic]:
+            bm = c.topics_to_brokers.get(TopicAndPartition(topic, p))
+            if bm is None:
+                return False
+            if not any(getattr(x.attempt.factory, "node_id", None) == bm.node_id and x.open_for_client for x in self.world.conns):
+                return False
+        return True
+
+    def _batch_resolved(self, b):
+        if any(s.watch is not None and s.watch.state == "pending" for s in b["sends"]):
+            return False
+        rounds = [r for r in self.rounds if r.get("batch") is b]
+        if not rounds or rounds[-1]["done"] is None:
+            return False
+        # a failed round with attempts left is followed by a retry even if every sender has meanwhile been cancelled
+        return not rounds[-1].get("failed") or len(rounds) >= self.config["max_attempts"] or self.stopped
+
+    def _in_flight(self):
+        return any(not self._batch_resolved(b) for b in self.batches) or any(r.get("batch") is None and r["done"] is None for r in self.rounds)
+
+    def _queue(self):
+        """sends the documented behaviour says are waiting in the batch queue (uncancelled, never transmitted, unfired)"""
+        return [s for s in self.sends if s.watch is not None and s.watch.state == "pending" and not s.appearances and s.batch is None]
+
+    def _check_batching(self):
+        cfg = self.config
+        if not cfg["batch"] or self.stopped:
+            return
+        n, b, T = cfg["every_n"], cfg["every_b"], cfg["every_t"]
+        w = self.world
+        q = self._queue()
+        warm = all(self._warm(s.topic) for s in q) if q else False
+        inflight = self._in_flight()
+        if inflight:
+            self._last_inflight_time = w.now
+        # (1) never early: a new batch starts only when a trigger holds
+        for bt in self.batches:
+            if bt.get("_justified"):
+                continue
+            bt["_justified"] = True
+            first = min((r for r in self.rounds if r.get("batch") is bt), key=lambda r: r["no"])
+            if first["call_evseq"] != bt["dispatch_evseq"]:
+                continue  # cold dispatch (lookups in between): the trigger instant is not observable
+            e = bt["dispatch_evseq"]
+            # Was the batch transmitted in the very event that triggered it (a send, or the completion of the previous
+            # batch)?  Then the queue at that instant is known exactly.  Otherwise partition lookups lay between the
+            # trigger and the transmission and only an over-approximation of the queue is known (sends cancelled in
+            # between are counted), which keeps this clause sound.
+            sync = any(s.evseq == e for s in self.sends) or any(r["done"] is not None and r["done"][0] == e for r in self.rounds if r.get("batch") is not None and r["batch"]["no"] < bt["no"])
+            earlier = set(x for b2 in self.batches if b2["no"] < bt["no"] for x in b2["sends"])
+            if sync:
+                members = [s for s in self.sends if s.evseq <= e and s not in earlier and (s.batch is bt or (s.batch is None and not s.appearances and (s.cancelled_at is None or s.cancelled_at > e)
+                                                                                                   and getattr(s, "fired_evseq", 10 ** 9) >= e))]
+            else:
+                members = [s for s in self.sends if s.evseq <= e and s not in earlier and (s.batch is bt or s.batch is None)]
+            cnt = sum(len(s.msgs) for s in members)
+            byt = sum(s.nbytes for s in members)
+            # the batch may have been taken from the queue at a tick and transmitted later (partition lookups in
+            # between): any tick between its newest member's send and the transmission justifies it
+            t_lo = max([s.time for s in members if s.batch is bt] + [self.t0])
+            on_tick = False
+            if T:
+                k = int((t_lo - self.t0) / T)
+                while self.t0 + k * T <= bt["dispatch_time"] + 1e-9:
+                    if self.t0 + k * T >= t_lo - 1e-9 and k > 0:
+                        on_tick = True
+                        break
+                    k += 1
+            if (n and cnt >= n) or (b and byt >= b):
+                if any(getattr(x, "_prev_inflight_at", None) == bt["dispatch_evseq"] for x in [self]):
+                    self.nt.add("threshold-met-while-batch-in-flight")
+            elif on_tick:
+                self.nt.add("tick-dispatch")
+            else:
+                self.note("C19.dispatch-needs-trigger", "C19.dispatched-without-trigger", "batch #%d (sends %r: %d messages, %d bytes) was transmitted at t=%.3f although neither threshold (n=%r, bytes=%r) was met and it was not a tick of the %rs timer" % (bt["no"], [s.no for s in bt["sends"]], cnt, byt, bt["dispatch_time"], n, b, T))
+        # (2)/(3) never late - only while the model is certain which sends the producer still holds in its queue: a send
+        # that fired without ever being transmitted (cancelled while a dispatch may have been looking up partitions, or
+        # failed lookup) may belong to a batch that is in flight without having written anything
+        for s in self.sends:
+            if s.watch is not None and s.watch.state != "pending" and not s.appearances and not getattr(s, "cancel_before_dispatch", False):
+                self.model_uncertain = True
+        if not q or not warm or inflight or self.model_uncertain or self.hard_faults:
+            return
+        cnt = sum(len(s.msgs) for s in q)
+        byt = sum(s.nbytes for s in q)
+        if not w.pending():
+            if (n and cnt >= n) or (b and byt >= b):
+                self.note("C19.dispatch-at-first-moment", "C19.threshold-met-not-dispatched", "no batch in flight, metadata warm, yet sends %r (%d messages, %d bytes) sit in the queue with thresholds n=%r bytes=%r" % ([s.no for s in q], cnt, byt, n, b))
+        if T:
+            r = getattr(self, "_last_inflight_time", self.t0)
+            for s in q:
+                if w.now > max(s.time, r) + T + 1e-9:
+                    self.note("C19.time-limit", "C19.waited-longer-than-one-period", "send #%d queued at t=%.3f (last batch resolved t=%.3f) is still not dispatched at t=%.3f with every_t=%r" % (s.no, s.time, r, w.now, T))
+                    break
 
     # ------------------------------------------------------------------ oracles
     def _locate(self, s, flat):
@@ -476,51 +631,49 @@ class PRODEngine(Engine):
                             want = plist[(_jvm._fallback(s.key) & 0x7FFFFFFF) % len(plist)]
                             if want != tp[1]:
                                 self.note("C18.hashed-java-colocation", "C18.end-to-end-partition", "send #%d key %r went to partition %r; Java murmur2 selects %r of %r" % (s.no, s.key, tp[1], want, plist))
-            # produce rounds: requests created by one send_produce_request call carry consecutive correlation ids and
-            # never repeat a (topic, partition)
-            c = rec["corr"]
-            if c in self.round_of:
-                rec["round"] = self.round_of[c]
-            else:
-                rnd = None
-                for nb_ in (c - 1, c + 1):
-                    r0 = self.round_of.get(nb_)
-                    if r0 is not None and not (set(rec["payloads"]) & r0["tps"]):
-                        rnd = r0
-                        break
-                if rnd is None:
-                    rnd = {"no": len(self.rounds), "tps": set(), "frames": [], "first_evseq": rec["evseq"]}
-                    self.rounds.append(rnd)
+            # produce rounds: the producer has at most one send_produce_request call in progress, so a produce frame
+            # belongs to the most recent such call (observed by wrapping that public client method)
+            rnd = rec.get("round")
+            if rnd is not None and rec not in rnd["frames"]:
                 rnd["tps"] |= set(rec["payloads"])
                 rnd["frames"].append(rec)
-                self.round_of[c] = rnd
-                rec["round"] = rnd
+                rnd.setdefault("first_evseq", rec["evseq"])
             # batches
             members = sorted(set(s for ss in rec["sends"].values() for s in ss), key=lambda s: s.no)
             fresh = [s for s in members if s.batch is None]
+            if rnd is None:
+                continue
+            if rnd.get("batch") is None:
+                old = [s.batch for s in members if s.batch is not None]
+                if old:
+                    rnd["batch"] = old[0]  # a retry round of an existing batch
+                else:
+                    # or the retry of a call whose own request for these payloads was never written
+                    for prev in self.rounds:
+                        if prev["chain"] == rnd["chain"] and prev.get("batch") is not None:
+                            rnd["batch"] = prev["batch"]
+                            break
             if fresh:
-                cur = self.batches[-1] if self.batches else None
-                joiners = [s for s in fresh if cur is not None and s.evseq <= cur["dispatch_evseq"]]
-                starters = [s for s in fresh if s not in joiners]
-                for s in joiners:
-                    s.batch = cur
-                    cur["sends"].append(s)
-                if starters:
-                    # a new batch is being dispatched: every earlier batch must be resolved
+                if rnd.get("batch") is not None:
+                    # requests of one round carry sends of one batch
+                    for s in fresh:
+                        s.batch = rnd["batch"]
+                        rnd["batch"]["sends"].append(s)
+                else:
+                    # a new batch is being transmitted: every earlier batch must be resolved
                     for b in self.batches:
                         unresolved = [s.no for s in b["sends"] if s.watch is not None and s.watch.state == "pending"]
                         if unresolved and not rec["after_stop"]:
                             self.note("C09.one-batch-at-a-time", "C09.batch-dispatched-while-earlier-unresolved",
-                                      "sends %r dispatched at t=%.3f while sends %r of an earlier batch are unresolved" % ([s.no for s in starters], rec["time"], unresolved))
+                                      "sends %r transmitted at t=%.3f while sends %r of an earlier batch are unresolved" % ([s.no for s in fresh], rec["time"], unresolved))
                             self.note("C19.dispatch-when-no-batch-in-flight", "C19.batch-dispatched-while-earlier-unresolved",
-                                      "sends %r dispatched at t=%.3f while sends %r of an earlier batch are unresolved" % ([s.no for s in starters], rec["time"], unresolved))
+                                      "sends %r transmitted at t=%.3f while sends %r of an earlier batch are unresolved" % ([s.no for s in fresh], rec["time"], unresolved))
                             break
-                    nb = {"no": len(self.batches), "dispatch_evseq": rec["evseq"], "dispatch_time": rec["time"], "sends": list(starters), "rounds": []}
+                    nb = {"no": len(self.batches), "dispatch_evseq": rec["evseq"], "dispatch_time": rec["time"], "sends": list(fresh), "rounds": []}
                     self.batches.append(nb)
-                    for s in starters:
+                    rnd["batch"] = nb
+                    for s in fresh:
                         s.batch = nb
-                    if cur is not None and any(x.watch is not None and x.watch.state == "pending" for x in cur["sends"]):
-                        pass
             # order across requests for the same partition: an earlier send never first appears after a later one
             for tp, ss in rec["sends"].items():
                 for s in ss:
@@ -551,9 +704,13 @@ class PRODEngine(Engine):
         dt = info.get("deliv_time")
         if dt is None:
             return False
+        if not strict:
+            # could the client have accepted it?  (ties with the timeout timer are the scheduler's choice)
+            return dt <= rec["time"] + self.timeout + 1e-9
+        # must the client have accepted it?
         if rec["conn"].userdata.get("open_evseq", -1) >= rec["evseq"]:
-            return not strict and dt <= rec["time"] + self.timeout + 1e-9
-        return dt <= rec["time"] + self.timeout - 1e-9
+            return False
+        return dt < rec["time"] + self.timeout - 1e-9
 
     def _after_event(self):
         self._digest_writes()
@@ -573,6 +730,7 @@ class PRODEngine(Engine):
                 s.fired_evseq = self.evseq
                 self._send_done(s)
         self._check_retries()
+        self._check_batching()
 
     def _send_done(self, s):
         from afkak.common import ProduceResponse
@@ -641,9 +799,9 @@ class PRODEngine(Engine):
                     self.note("C09.only-failed-retried", "C09.acknowledged-payload-resent", "send #%d for %r was acknowledged (error 0, reply delivered) in one attempt and transmitted again in the next (sibling payloads %r)" % (s.no, tp, sib))
         # senders of an acknowledged payload are told no later than the next produce round of their batch goes out
         for rec in self.writes:
-            if rec.get("_ackcheck") or "round" not in rec:
+            if rec.get("_ackcheck") or rec.get("round") is None:
                 continue
-            later = [r for r in self.writes if "round" in r and r["round"]["no"] > rec["round"]["no"]]
+            later = [r for r in self.writes if r.get("round") is not None and r["round"]["no"] > rec["round"]["no"]]
             if not later:
                 continue
             done = True
@@ -692,7 +850,7 @@ class PRODEngine(Engine):
                         batch = s.batch
             if batch is None or not any(s.batch is batch for rec in nxt["frames"] for ss in rec["sends"].values() for s in ss):
                 continue
-            if any(s.topic == "nosuch" for s in batch["sends"]) or (self.stopped and nxt["first_evseq"] >= (self.stop_evseq or 0)):
+            if any(s.topic == "nosuch" for s in batch["sends"]) or (self.stopped and nxt.get("first_evseq", nxt["call_evseq"]) >= (self.stop_evseq or 0)):
                 continue
             t_fail = max(a["reply"]["deliv_time"] for a in infos)
             e_fail = max(a["reply"]["deliv_evseq"] for a in infos)
@@ -700,8 +858,7 @@ class PRODEngine(Engine):
             if not nexts:
                 continue
             d = min(nexts) - t_fail
-            a_no = 1 + sum(1 for r in self.rounds[:i] if r.get("_failed_batch") is batch)
-            rnd["_failed_batch"] = batch
+            a_no = 1 + sum(1 for r in self.rounds[:i] if r["chain"] == rnd["chain"])
             want = self.config["retry_interval"] * (self.factor ** (a_no - 1))
             self.nt.add("retry-delay-measured")
             if a_no >= 2:
